@@ -4,6 +4,8 @@ Models: Model/Fees.lean (oracle data-request fee collection) and Model/Signing.l
 fees, escrow, payout).  Lemmas: Lemmas/Fees.lean.  Amounts are compared on the denoms in play.
 -/
 import BandVerif.Lemmas.Fees
+import BandVerif.Lemmas.SigningEscrow
+import BandVerif.Props.C05
 
 namespace C13
 open BandVerif
@@ -124,11 +126,147 @@ theorem no_pay_on_fail (s : Signing.State) (sid : Nat) :
     (Signing.onFailed s sid).escrow = s.escrow ∧ (Signing.onFailed s sid).bal = s.bal ∧ (Signing.onFailed s sid).mapping sid = 0 := by
   simp [Signing.onFailed]
 
+/-! ## whole histories: the escrow covers every open paid signing -/
+
+/-- the sampler's contract used here (C09): a committee has at most `threshold` members (it has exactly that many) -/
+def CommitteeOk (thr : Nat) : C05.Op → Prop
+  | .request _ _ _ c _ => c.length ≤ thr
+  | .endBlock c _ _ => ∀ i, (c i).length ≤ thr
+  | _ => True
+
+theorem step_einv (s : Signing.State) (op : C05.Op) (h : Signing.EInv s) (ok : CommitteeOk s.threshold op) :
+    Signing.EInv (C05.apply s op) ∧ (C05.apply s op).threshold = s.threshold := by
+  cases op with
+  | submitDE m k =>
+    simp only [C05.apply, Signing.enqueue]
+    split
+    · exact ⟨h, rfl⟩
+    · exact ⟨Signing.einv_of_frame _ _ h rfl rfl rfl rfl rfl rfl rfl, rfl⟩
+  | resetDE m => exact ⟨Signing.einv_of_frame _ _ h rfl rfl rfl rfl rfl rfl rfl, rfl⟩
+  | request a b c d e => exact Signing.request_einv s a b c d e h ok
+  | submit a b c d =>
+    simp only [C05.apply]
+    by_cases hok : (Signing.submit s a b c d).2 = Signing.Err.ok
+    · obtain ⟨sg, atm, _, _, _, _, _, _, _, hst⟩ := Signing.submit_ok s a b c d hok
+      rw [hst]
+      unfold Signing.addPartial
+      simp only []
+      split
+      · exact ⟨Signing.einv_of_frame _ _ h rfl rfl rfl rfl rfl rfl rfl, rfl⟩
+      · exact ⟨Signing.einv_of_frame _ _ h rfl rfl rfl rfl rfl rfl rfl, rfl⟩
+    · rw [Signing.submit_err_state s a b c d hok]; exact ⟨h, rfl⟩
+  | endBlock c ht n =>
+    refine ⟨Signing.endBlock_einv s c ht n h ok, ?_⟩
+    -- the threshold is a constant of the group
+    have a : ∀ (l : List Nat) (st : Signing.State), (Signing.aggregateAll st l).threshold = st.threshold := by
+      intro l; induction l with
+      | nil => intro st; rfl
+      | cons x xs ihx =>
+        intro st; simp only [Signing.aggregateAll]
+        cases st.signings x with
+        | none => exact ihx st
+        | some sg =>
+          simp only []; rw [ihx]
+          exact (Signing.onCompleted_frame _ x _).2.2.2.2.2.2.2.2.2.1
+    have b : ∀ (l : List (Nat × Nat)) (st : Signing.State) (acc : List Nat) (k : Nat), (Signing.expireGo ht n l st acc k).1.threshold = st.threshold := by
+      intro l; induction l with
+      | nil => intro st acc k; rfl
+      | cons e rest ihe =>
+        intro st acc k
+        obtain ⟨i, a'⟩ := e
+        simp only [Signing.expireGo]
+        cases st.signings i with
+        | none => rfl
+        | some sg =>
+          cases st.attempts i a' with
+          | none => rfl
+          | some atm =>
+            simp only []
+            split
+            · rfl
+            · rw [ihe]
+              split
+              · exact (Signing.onTimeout_frame i sg.attempt n _ st).2.2.2.2.2.2.2.2.1
+              · rfl
+    have r : ∀ (l : List Nat) (st : Signing.State), (Signing.retryAll c ht l st).threshold = st.threshold := by
+      intro l; induction l with
+      | nil => intro st; rfl
+      | cons x xs ihx =>
+        intro st; simp only [Signing.retryAll]; rw [ihx]
+        rcases Signing.retryOne_cases st x (c x) ht with ⟨sg, _, _, e⟩ | ⟨sg, _, _, e⟩ | ⟨_, e⟩ <;> rw [e] <;> rfl
+    simp only [C05.apply, Signing.endBlock]
+    rw [r, b]; exact a s.pending s
+  | activate m n =>
+    simp only [C05.apply, Signing.activate]
+    split
+    · exact ⟨h, rfl⟩
+    · split
+      · exact ⟨h, rfl⟩
+      · split
+        · exact ⟨h, rfl⟩
+        · exact ⟨Signing.einv_of_frame _ _ h rfl rfl rfl rfl rfl rfl rfl, rfl⟩
+  | setParams p a d f => exact ⟨Signing.einv_of_frame _ _ h rfl rfl rfl rfl rfl rfl rfl, rfl⟩
+
+/-- PROPERTY (the escrow covers every open paid signing, over EVERY history of requests — paid and free —, signature
+    submissions, end-blocks with time-outs and retries, fee-parameter changes): the bandtss module account always holds at
+    least fee_per_signer × threshold for each request whose current signing is still open -/
+theorem escrow_covers_open (ops : List C05.Op) (s : Signing.State) (h : Signing.EInv s) (ok : ∀ op ∈ ops, CommitteeOk s.threshold op) :
+    Signing.EInv (ops.foldl C05.apply s) := by
+  induction ops generalizing s with
+  | nil => exact h
+  | cons op rest ih =>
+    obtain ⟨q1, q2⟩ := step_einv s op h (ok op (List.mem_cons_self ..))
+    exact ih _ q1 (fun o ho => by rw [q2]; exact ok o (List.mem_cons_of_mem _ ho))
+
+/-- … hence the payout of OnSigningCompleted never exceeds the module account's balance (the `SendCoins` from the
+    bandtss module account cannot fail, the end-blocker cannot panic there): in every state satisfying the invariant,
+    for the current signing of an open request and any of its stored attempts, fee × |assigned members| ≤ escrow -/
+theorem payout_never_exceeds_escrow (s : Signing.State) (h : Signing.EInv s) (sid : Nat) (b : Signing.BSig)
+    (hm : s.mapping sid ≠ 0) (hb : s.bsigs (s.mapping sid) = some b) (hcur : sid = b.currentSid)
+    (att : Nat) (atm : Signing.Attempt) (ha : s.attempts sid att = some atm) (d : String) :
+    b.feePerSigner d * atm.assigned.length ≤ s.escrow d := by
+  have hsid : sid ≤ s.count := by
+    cases Nat.lt_or_ge s.count sid with
+    | inl hlt => exact absurd (h.sids sid hlt) hm
+    | inr hge => exact hge
+  have h1 := Signing.owed_le_sum s sid d hsid
+  have h2 := h.covers d
+  have h3 : Signing.owed s sid d = b.feePerSigner d * s.threshold := by
+    unfold Signing.owed; simp [hm, hb, ← hcur]
+  have h4 : b.feePerSigner d * atm.assigned.length ≤ b.feePerSigner d * s.threshold := Nat.mul_le_mul_left _ (h.small sid att atm ha)
+  omega
+
 /-! non-vacuity -/
 def demoS : Fees.State := { bal := fun a d => if a = 0 ∧ d = "uband" then 100 else 0, denoms := ["uband"] }
 def demoSrcs : List Fees.Source := [⟨fun d => if d = "uband" then 7 else 0, 1⟩, ⟨fun _ => 0, 2⟩, ⟨fun d => if d = "uband" then 7 else 0, 1⟩]
 example : (Fees.requestFees demoS 0 2 (fun d => if d = "uband" then 28 else 0) demoSrcs).2.2.2 = Fees.Err.ok := by decide
 example : (Fees.requestFees demoS 0 2 (fun d => if d = "uband" then 27 else 0) demoSrcs).2.2.2 = Fees.Err.notEnoughFee := by decide
 example : (Fees.requestFees demoS 0 2 (fun d => if d = "uband" then 28 else 0) demoSrcs).1.bal 1 "uband" = 28 := by decide
+
+/-- a state with one open PAID signing (fee 2uband per signer, threshold 2, escrow 5uband) satisfies the escrow invariant -/
+def demoSig : Signing.State :=
+  { members := [1, 2], threshold := 2, queues := fun _ => [], nextToken := 3,
+    tssActive := fun _ => true, signings := fun i => if i = 1 then some ⟨1, 1⟩ else none,
+    attempts := fun i a => if i = 1 ∧ a = 1 then some ⟨12, [(1, 0), (2, 2)]⟩ else none,
+    partials := fun _ _ => [], expirations := [(1, 1)], pending := [], count := 1, signingPeriod := 2, maxAttempt := 2, maxDE := 3,
+    bActive := fun _ => true, bSince := fun _ => 0, penalty := 0, mapping := fun i => if i = 1 then 1 else 0,
+    bsigs := fun i => if i = 1 then some ⟨fun d => if d = "uband" then 2 else 0, 100, 1⟩ else none, bcount := 1,
+    feePerSigner := fun d => if d = "uband" then 2 else 0, escrow := fun d => if d = "uband" then 5 else 0, bal := fun _ _ => 0, denoms := ["uband"],
+    assignedLog := [], penalised := [], completedLog := [], failedLog := [] }
+example : Signing.EInv demoSig := by
+  refine ⟨?_, ?_, ?_, ?_, ?_⟩
+  rotate_left 4
+  · intro i hi
+    by_cases e : i = 1 <;> simp [demoSig, e] at hi ⊢
+  · intro d
+    by_cases hd : d = "uband" <;> simp [Signing.owedSum, Signing.owed, demoSig, hd, List.range_succ]
+  · intro i a atm q
+    by_cases e : i = 1 ∧ a = 1
+    · simp [demoSig, e] at q; subst q; simp [demoSig]
+    · simp [demoSig, e] at q
+  · intro i; by_cases e : i = 1 <;> simp [demoSig, e]
+  · intro i hi
+    have : i ≠ 1 := by simp [demoSig] at hi; omega
+    simp [demoSig, this]
 
 end C13
